@@ -282,9 +282,9 @@ theorem invStaking_empty (cfg : Config) (params : Params) : InvStaking ({ cfg :=
 
 /-- **an accepted genesis satisfies `InvStaking`** -/
 theorem genesis_invStaking {cfg : Config} {params : Params} {accounts : List (Addr × Nat)} {pools : List (Nat × Nat)}
-    {vals : List GenesisValidator} {retired : List Nat} {L : Ledger}
+    {vals : List GenesisValidator} {retired : List Nat} {books : List GenesisBook} {L : Ledger}
     (ha : ∀ e ∈ accounts, e.2 ≤ MAXU) (hp : ∀ e ∈ pools, e.2 ≤ MAXU) (hv : ∀ g ∈ vals, g.val.stake ≤ MAXU)
-    (h : genesis cfg params accounts pools vals retired = .ok L) : InvStaking L := by
+    (h : genesis cfg params accounts pools vals retired books = .ok L) : InvStaking L := by
   unfold genesis at h
   split at h
   · exact absurd h (by intro h; cases h)
@@ -317,6 +317,9 @@ theorem genesis_invStaking {cfg : Config} {params : Params} {accounts : List (Ad
                   split at h
                   · exact absurd h (by intro h; cases h)
                   · next L3 h3 =>
+                    split at h
+                    · exact absurd h (by intro h; cases h)
+                    next L4 h4 =>
                     obtain rfl := Except.ok.inj h
                     obtain ⟨_, _, _, a4⟩ := foldlM_genesisAccount accounts _ L1 na (by intro e _ hm; simp at hm) ha h1
                     obtain ⟨_, _, _, p4⟩ := foldlM_genesisPool pools L1 L2 np (by
@@ -330,6 +333,7 @@ theorem genesis_invStaking {cfg : Config} {params : Params} {accounts : List (Ad
                     have s2 : InvStaking L2 := s0.of_same r.validators r.staked r.delegatedOnly r.committee r.delegated r.unstaking r.paused
                     have s3 := foldlM_genesisValidator_inv vals L2 L3 s2 nv (by
                       intro g _ hm; rw [r.validators] at hm; simp at hm) hv h3
-                    exact s3.of_same rfl rfl rfl rfl rfl rfl rfl
+                    have r4 := foldlM_genesisBook_rest books L3 L4 h4
+                    exact s3.of_same r4.validators r4.staked r4.delegatedOnly r4.committee r4.delegated r4.unstaking r4.paused
 
 end Canopy.Ledger
